@@ -7,9 +7,10 @@
    model: every observed outcome must be one the model allows for that transport on the bytes received so
    far AGAINST THE REGISTRY OF THAT STEP (the iteration orders Go leaves open are covered by the allowed
    sets of Model.v, proved exact there), the bookkeeping (possible transports, terminal outcomes) must be
-   the model's, a Read without terminal outcome must be one where the model allows every remaining
-   transport a non-terminal outcome, and the tunnel observed after a step must be the registration the model
-   is matched to. *)
+   the model's, a Read without terminal outcome must have asked every transport still possible, and the
+   tunnel observed after a step must be the registration the model is matched to.
+   ProofsReplay.v proves that whatever this checker accepts is a run of the step function `cstep` of
+   ModelConn.v for some choice of the iteration orders (C02_conn_replay_is_model_run). *)
 From CJ Require Import Common.Base C02.Model C02.ModelConn C02.Run.
 
 Definition tk_of (c : N) : tk := match c with 0 => TMin | 1 => TPrefix | _ => TObfs4 end.
@@ -51,15 +52,25 @@ Section Replay.
       let t := tk_of tc in
       if negb (mem_tk t poss) then RBad 1
       else if negb (existsb (obs_eqb o) (allowed_tk t v buf)) then RBad 2
-      else match cls o with
-           | 0 => replay_calls v buf poss rest
-           | 1 => replay_calls v buf (remove_tk t poss) rest
-           | 4 => match rest with [] => RMatched (nm o) | _ => RBad 3 end
-           | _ => match rest with [] => RGaveUp | _ => RBad 3 end
+      else if cls o =? 0 then replay_calls v buf poss rest
+      else if cls o =? 1 then replay_calls v buf (remove_tk t poss) rest
+      else match rest with
+           | [] => if cls o =? 4 then RMatched (nm o) else RGaveUp
+           | _ => RBad 3
            end
     end.
 
   Definition has_terminal (calls : list ocall) : bool := existsb (fun c => negb (nonterminal (snd c))) calls.
+  Definition asked (calls : list ocall) : list tk := map (fun c => tk_of (fst c)) calls.
+  Fixpoint nodup_tk (l : list tk) : bool :=
+    match l with [] => true | x :: r => negb (mem_tk x r) && nodup_tk r end.
+
+  (* one iteration of the read loop, as observed: `range possibleTransports` asks every transport still possible
+     exactly once, unless an earlier one ends the classification *)
+  Definition read_obs (v : view) (b : bytes) (poss : list tk) (calls : list ocall) : rstate :=
+    if negb (nodup_tk (asked calls)) then RBad 10
+    else if negb (has_terminal calls) && negb (forallb (fun t => mem_tk t (asked calls)) poss) then RBad 9
+    else replay_calls v b poss calls.
 
   Definition xstep (ph : phantom) (s : registry * rstate) (e : xev) : registry * rstate :=
     let (st, rs) := s in
@@ -72,18 +83,12 @@ Section Replay.
     | XRead chunk calls tun =>
       (st, match rs with
            | RReading buf poss =>
-             let v := get_regs st ph in
-             let b := buf ++ chunk in
-             let rs' := replay_calls v b poss calls in
-             if negb (has_terminal calls) && negb (forallb (fun t => existsb nonterminal (allowed_tk t v b)) poss)
-             then RBad 4        (* the model says: some transport must give a terminal answer on these bytes *)
-             else match rs' with
-                  | RMatched n => if tun =? n then rs' else RBad 5
-                  | RBad w => RBad w
-                  | _ => if tun =? 0 then rs' else RBad 6
-                  end
+             match read_obs (get_regs st ph) (buf ++ chunk) poss calls with
+             | RMatched n => if tun =? n then RMatched n else RBad 5
+             | RBad w => RBad w
+             | rs' => if tun =? 0 then rs' else RBad 6
+             end
            | RBad w => RBad w
-           | RMatched n => match calls with [] => if (tun =? 0) then rs else RBad 7 | _ => RBad 8 end
            | _ => match calls with [] => if (tun =? 0) then rs else RBad 7 | _ => RBad 8 end
            end)
     | XErr => (st, match rs with RReading _ _ | RDiscard => RClosed | _ => rs end)
